@@ -335,19 +335,21 @@ the other axes: `_norm_roi` (`roi_normalise` against the full shape), `np.full` 
 `roi_shape` (a negative extent raises `ValueError`), then the paste loop.  Returns the result
 shape `(lead, ny, nx, trail)` and the cells. -/
 def extract {Val} (a : Assembler Val) (fill : Val) (rl : List PIdx) (ry rx : PIdx)
-    (rt : List PIdx) : Res ((List Int × Int × Int × List Int) × Arr Val) := do
-  if rl.length ≠ a.lead.length ∨ rt.length ≠ a.trail.length then throw .indexError
-  let wl := (rl.zip a.lead).map fun (s, n) => normSlice s n
-  let wt := (rt.zip a.trail).map fun (s, n) => normSlice s n
-  -- `self._shape` holds the Python `sum(chy), sum(chx)`
-  let wy := normSlice ry (total a.chy)
-  let wx := normSlice rx (total a.chx)
-  let shp := (wl.map fun w => w.stop - w.start, wy.stop - wy.start, wx.stop - wx.start,
-              wt.map fun w => w.stop - w.start)
-  if shp.1.any (· < 0) ∨ shp.2.1 < 0 ∨ shp.2.2.1 < 0 ∨ shp.2.2.2.any (· < 0) then
-    throw .valueError
-  let xx ← pasteAll a wl wy wx wt (fun _ _ _ _ => fill) a.present
-  return (shp, xx)
+    (rt : List PIdx) : Res ((List Int × Int × Int × List Int) × Arr Val) :=
+  if rl.length ≠ a.lead.length ∨ rt.length ≠ a.trail.length then .error .indexError
+  else
+    let wl := (rl.zip a.lead).map fun p => normSlice p.1 p.2
+    let wt := (rt.zip a.trail).map fun p => normSlice p.1 p.2
+    -- `self._shape` holds the Python `sum(chy), sum(chx)`
+    let wy := normSlice ry (total a.chy)
+    let wx := normSlice rx (total a.chx)
+    let sl := wl.map fun w => w.stop - w.start
+    let st := wt.map fun w => w.stop - w.start
+    if sl.any (· < 0) ∨ wy.stop - wy.start < 0 ∨ wx.stop - wx.start < 0 ∨ st.any (· < 0) then
+      .error .valueError
+    else
+      (pasteAll a wl wy wx wt (fun _ _ _ _ => fill) a.present).map fun xx =>
+        ((sl, wy.stop - wy.start, wx.stop - wx.start, st), xx)
 
 /-! ### `planes_yx`  (_blocks.py:156-167) -/
 
